@@ -53,6 +53,21 @@ def run(ctx):
     #      timeout; virtual time: the service's 59 s)
     lt = [b for b in tc.gen(ctx, "Gen_TcpConn_C02Late.cfg", 4000 if q else 16000, seed=ctx.seed + 2) if tc.features(b)["crecv"] >= 1]
     lpick = tc.select(lt, 40 if q else 300, lambda f: (min(f["trecv"], 2), min(f["crecv"], 2), f["ticks"]), rng)
+    #  (c) a large upload (3 x 1 MiB) to a target that has finished its own direction and does not read for 400 ms: when the
+    #      handler is done the data still sits in the proxy's socket buffers and must nevertheless arrive completely
+    import copy
+    big = []
+    for b in [b for b in tf if tc.features(b)["trecv"] >= 2 and tc.features(b)["tfin"]][:6 if q else 30]:
+        b = copy.deepcopy(b)
+        b["ov"] = {"craft": "pause", "datasize": 1 << 20}
+        big.append(b)
+    if len(big) < 3:
+        raise vlib.Inconclusive("no behaviour for the large-upload scenario")
+    bcases, _, _, h4 = tc.run_family(ctx, "C02_", big, label="c02-large-upload-slow-target", timeout_ms=5000, par=3,
+                                     extra=["-hang-ms", "8000"])
+    if h4:
+        raise vlib.Inconclusive("handlers still running after the script ended (see notes): %s" % ctx.notes[-1])
+    ctx.cov["large_upload_bytes_to_target"] = sorted(c["wtr"] for c in bcases)
     if len(tpick) < 20 or len(lpick) < 20:
         raise vlib.Inconclusive("steered generation produced too few behaviours (%d, %d)" % (len(tpick), len(lpick)))
     tcases, _, _, h2 = tc.run_family(ctx, "C02_", tpick, label="c02-target-ends-first", timeout_ms=5000, par=8 if q else 12)
@@ -68,8 +83,8 @@ def run(ctx):
         tc.mech_pass(ctx, vcases, lpick, label="c02-vt-relay-outlives-deadline")
     except ImportError:
         ctx.cov["skipped"].append("virtual-time variant: not built")
-    pick = pick + tpick + lpick
-    cases = cases + tcases + lcases
+    pick = pick + tpick + lpick + big
+    cases = cases + tcases + lcases + bcases
     ntv = 0
     for b in pick:
         f = tc.features(b)
